@@ -298,7 +298,7 @@ pub fn run(ctx: &Ctx) -> Report {
     let sz = Sizes {
         two_byte_samples: ctx.size(300, 5000) as usize,
         misc_samples: ctx.size(500, 20_000) as usize,
-        seq_programs: ctx.size(40_000, 500_000) as usize,
+        seq_programs: ctx.size(40_000, 3_000_000) as usize,
         alu_stride: if ctx.quick() { 16 } else { 1 },
     };
     let total = c01::n_items(&sz);
